@@ -336,6 +336,12 @@ def round_(x, n=0):
     return x
 
 
+def isclose(a, b, rtol=1e-05, atol=1e-08):
+    """numpy.isclose on scalars: |a - b| <= atol + rtol * |b|"""
+    r = abs(a - b) <= atol + rtol * abs(b)
+    return r
+
+
 def zeros(n):
     return _real_np.zeros(n)
 
@@ -360,12 +366,18 @@ class Shim:
     sqrt = staticmethod(sqrt)
     round = staticmethod(round_)
     zeros = staticmethod(zeros)
+    isclose = staticmethod(isclose)
     inf = inf
     pi = pi
     random = _Random
     ndarray = Arr
     floating = _real_np.floating
     integer = _real_np.integer
+
+
+    def __getattr__(self, name):
+        # a numpy function the shim does not model must fail loudly, never look like an error of the code under analysis
+        raise core.Unsupported(f"numpy.{name} is not modelled by the shim")
 
 
 np = Shim()
